@@ -44,6 +44,7 @@ def units(tier, seed, only=None):
                 u.backends = ['kissat', 'minisat']
                 u.timeout = 400
             us.append(u)
+    us.append(cgen.gen_unit_accw_int(tier))
     if only:
         us = [u for u in us if re.search(only, u.name)]
     return us
